@@ -999,6 +999,13 @@ class Normalizer:
             if isinstance(st_t, Term) and st_t.op == "store" and self.nf(st_t.args[0]) == self.nf(other) and _empty_guard(a[0], st_t.args[1]):
                 return self.nf(st_t)
             return P_atom(A("phi", self.freeze(a[0]), wrap(x), wrap(y)))
+        if op in ("len", "size") and len(a) == 1 and isinstance(a[0], Term):
+            # number of selected entries: len(flatnonzero(m)) = len(v[m]) = count(m) (v a vector, m a mask over it)
+            x_ = a[0]
+            if x_.op == "nonzero1" and len(x_.args) == 1:
+                return self.nf(Term("count", x_.args[0]))
+            if op == "len" and x_.op == "getitem" and isinstance(x_.args[1], Term) and x_.args[1].op in ("any", "all", "lt", "le", "gt", "ge", "eq", "ne", "invert", "bitand", "bitor", "isin", "isnan"):
+                return self.nf(Term("count", x_.args[1]))
         if op == "nonzero1" and _setdiff_pattern(t) is not None:
             return self.nf(_setdiff_pattern(t))
         if op == "nonzero1" and len(a) == 1 and _flag_mask_positions(a[0]) is not None:
